@@ -270,8 +270,11 @@ def fsm_case(MX, ops, pool, sd=SD):
         elif o["op"] == "add":
             return None
         one = coq_ops([o], [tk])[0]
-        # analyses on a scene that raises inside (e.g. not trimmable) leave the object in an unspecified state: stop the trace there
+        # analyses on a scene that raises inside (e.g. not trimmable) leave the object in an unspecified state: stop the trace there;
+        # so does a solve that does not converge (a numerical outcome the bookkeeping model does not predict)
         if got[1] is not None and o["op"] not in ("add", "remove", "set_state", "set_controls", "solve", "dist"):
+            break
+        if got[1] in ("SolverNotConvergedError", "MaxIterationError"):
             break
         coq.append(one)
         exp.append("([%s], %s, %s)" % ("; ".join(str(name_tok[n]) for n in sc._airplanes), cbool(bool(sc._solved)), cbool(got[1] is not None)))
